@@ -5,6 +5,7 @@ import TantivyModel.Proofs.OrderEnc
 import TantivyModel.Proofs.LeafTree
 import TantivyModel.Proofs.JsonRange
 import TantivyModel.Proofs.FastRange
+import TantivyModel.Proofs.Carrying
 import TantivyModel.Proofs.PhraseAlign
 import TantivyModel.Proofs.PhraseExact
 import TantivyModel.Gen.PhraseScorer
@@ -461,6 +462,43 @@ theorem C03_range_paths_agree (w : Nat) (lo hi : BndN) (v : Nat) (hv : v < 256 ^
   cases lo <;> cases hi <;> simp only [bndBe, bndBelow] at hlo hhi ⊢ <;>
     simp [L, R, hlo, hhi] <;> rw [Bool.eq_iff_iff] <;> simp <;> omega
 
+/-! ## the ≥ 3-term slop algorithm (`intersection_count_with_carrying_slop`): what does hold -/
+
+/-- whatever slops are carried in, the carrying intersection reports no match and keeps no position
+when no occurrence pair of the two lists is within the slop (no sortedness needed) -/
+theorem C03_carrying_no_pair_no_match (L S R : List Nat) (slop : Nat)
+    (hfar : ∀ a ∈ L, ∀ b ∈ R, slop < dist a b) :
+    PhraseSlop.carrying L S R slop = (0, [], []) :=
+  PhraseSlop.carrying_far L S R slop hfar
+
+/-- first fold step (no slops carried in, increasing lists): the count is positive exactly when
+some occurrence pair is within the slop — until its first hit the loop moves like
+`intersection_exists_with_slop` -/
+theorem C03_carrying_first_step_exact (L R : List Nat) (slop : Nat)
+    (hl : L.Pairwise (· ≤ ·)) (hr : R.Pairwise (· ≤ ·)) :
+    0 < (PhraseSlop.carrying L [] R slop).1 ↔ ∃ a, a ∈ L ∧ ∃ b, b ∈ R ∧ dist a b ≤ slop :=
+  PhraseSlop.carrying_first_step L R slop hl hr
+
+/-- a sloppy phrase of ≥ 3 terms: on a document in which the first two processed terms have no
+occurrence pair within the slop, the scoring path, the no-scoring path and the budget meaning all
+say "no match" (the paths can only disagree — `C03_phrase_slop3_inconsistent` — once the first
+pair is within the slop) -/
+theorem C03_phrase_slop3_far_agree (a b : List Nat) (rest : List (List Nat)) (hrest : rest ≠ [])
+    (slop : Nat) (hfar : ∀ x ∈ a, ∀ y ∈ b, slop < dist x y) :
+    PhraseSlop.phraseOff (a :: b :: rest) slop = false ∧ PhraseSlop.phraseOn (a :: b :: rest) slop = false
+      ∧ phraseSlop (a :: b :: rest) slop = false := by
+  have h := PhraseSlop.phrase3_far a b rest hrest slop hfar
+  refine ⟨h.1, h.2, ?_⟩
+  simp only [phraseSlop, slopChain]
+  rw [List.any_eq_false]
+  intro x hx
+  simp only [Bool.not_eq_true]
+  rw [List.any_eq_false]
+  intro y hy
+  have := hfar x hx y hy
+  simp only [Bool.not_eq_true, Bool.and_eq_false_iff, decide_eq_false_iff_not]
+  left; omega
+
 /-! ## the phrase scorer's per-document state -/
 
 /-- does `compute_phrase_match` clear `left_slops` before folding a document's terms? (read from
@@ -798,6 +836,9 @@ example : FastRange.classify (.incl 3) (.excl 10) 3 9 true = .all
     ∧ FastRange.classify .unb (.excl 0) 0 9 true = .empty
     ∧ FastRange.classify (.excl FastRange.U64MAX) .unb 0 FastRange.U64MAX true = .empty
     ∧ (3 : Nat) ≤ 5 ∧ (5 : Nat) ≤ FastRange.U64MAX := by decide
+example : (∀ x ∈ ([1, 2] : List Nat), ∀ y ∈ ([9] : List Nat), 3 < dist x y)
+    ∧ PhraseSlop.carrying [1, 2] [] [9] 3 = (0, [], [])
+    ∧ 0 < (PhraseSlop.carrying [1, 5] [] [4, 6] 3).1 ∧ ([[7]] : List (List Nat)) ≠ [] := by decide
 example : (JsonRange.B.excl (.f (-3))).small ∧ (JsonRange.B.incl (.i 7)).small
     ∧ JsonRange.implMatchF (.excl (.f (-3))) (.incl (.i 7)) 5 = true
     ∧ JsonRange.implMatchF (.excl (.f (-3))) (.incl (.i 7)) (-3) = false := by
